@@ -141,31 +141,45 @@ _treepath_storage = threading.local()
 
 
 def clear_treepath_memo() -> None:
-    _treepath_storage.value = None
+    # Leave the innermost structured PyTree leaf; whatever enclosed it is current again.
+    stack = getattr(_treepath_storage, "value", None)
+    if stack:
+        stack.pop()
+    if not stack:
+        _treepath_storage.value = None
 
 
 def set_treepath_memo(index: Optional[int], structure: str) -> None:
-    if hasattr(_treepath_storage, "value") and _treepath_storage.value is not None:
-        raise AnnotationError(
-            "Cannot typecheck annotations of the form "
-            "`PyTree[PyTree[Shaped[Array, '?foo'], 'T'], 'S']` as it is ambiguous "
-            "which PyTree the `?` annotation refers to."
-        )
     if index is None:
-        _treepath_storage.value = f"~~delete~~({structure}) "
+        label = f"~~delete~~({structure}) "
     else:
         # Appears in error messages, so human-readable
-        _treepath_storage.value = f"(Leaf {index} in structure {structure}) "
+        label = f"(Leaf {index} in structure {structure}) "
+    stack = getattr(_treepath_storage, "value", None)
+    if stack is None:
+        _treepath_storage.value = [label]
+    else:
+        # A structured PyTree inside the leaf type of another one. That is fine by
+        # itself; only a `?` axis beneath both of them is ambiguous, which is
+        # reported when such an axis is looked up.
+        stack.append(label)
 
 
 def get_treepath_memo() -> str:
-    if not hasattr(_treepath_storage, "value") or _treepath_storage.value is None:
+    stack = getattr(_treepath_storage, "value", None)
+    if not stack:
         raise AnnotationError(
             "Cannot use `?` annotations, e.g. `Shaped[Array, '?foo']`, except "
             "when contained with structured `PyTree` annotations, e.g. "
             "`PyTree[Shaped[Array, '?foo'], 'T']`."
         )
-    return _treepath_storage.value
+    if len(stack) > 1:
+        raise AnnotationError(
+            "Cannot typecheck annotations of the form "
+            "`PyTree[PyTree[Shaped[Array, '?foo'], 'T'], 'S']` as it is ambiguous "
+            "which PyTree the `?` annotation refers to."
+        )
+    return stack[0]
 
 
 _treeflatten_storage = threading.local()
